@@ -135,6 +135,11 @@ func ReuseCase(c *hc.Ctx, q *Queue, prop string) {
 		want := show(&f1, f1.Decode(&bin.Buffer{Buf: append([]byte{}, pt...)}))
 		in := fmt.Sprintf("EncryptedMessageData plaintext %s   [step %d on reused structs]", hc.Hex(pt), step)
 		c.Count("reuse.data-step")
+		// the model's decodeData (interpreting the regenerated reads) against the fresh Go decoder;
+		// Data() of a negative declared length would panic in Go, so only non-negative lengths are compared
+		if len(pt) < 32 || int32(uint32(pt[28])|uint32(pt[29])<<8|uint32(pt[30])<<16|uint32(pt[31])<<24) >= 0 {
+			q.Add("decdata "+hc.Hex(pt), want)
+		}
 		if got := show(&dCopy, dCopy.Decode(&bin.Buffer{Buf: append([]byte{}, pt...)})); got != want {
 			c.Fail("reused-object-differs-from-fresh", in, "EncryptedMessageData.Decode into a reused struct: "+clipStr(got)+" — fresh: "+clipStr(want))
 		}
